@@ -4,6 +4,7 @@ import (
 	"context"
 	"fmt"
 	"math"
+	"sync"
 	"os"
 	"strconv"
 	"strings"
@@ -175,6 +176,11 @@ func c14GenRate(r interface{ IntN(int) int }) string {
 
 func pick2(r interface{ IntN(int) int }, xs ...int) int { return xs[r.IntN(len(xs))] }
 
+var (
+	c14BellOnce sync.Once
+	c14Bell     float64
+)
+
 func c14RateStr(c *core.Case, o *core.Outcome) {
 	var p c14Params
 	c.Params(&p)
@@ -221,6 +227,24 @@ func c14RateStr(c *core.Case, o *core.Outcome) {
 		if err != nil || rates.IterationDuration != unit || rates.Rate(time.Now()) != n {
 			o.Violate("ratestr-builder:"+s, "constant builder disagrees with ParseRate for %q: %v %+v", s, err, rates)
 			return
+		}
+		// the same string given as the gaussian trigger's --peak-rate: the volume it stands for is n per unit
+		// (per second: n/unit) times the area under the unit-height bell sampled once per second of a day
+		if i%4 == 0 && n <= 1_000_000_000 {
+			const pk, sd = 14 * time.Hour, 150 * time.Minute
+			c14BellOnce.Do(func() {
+				for x := 0; x < 86400; x++ {
+					z := (float64(x) - pk.Seconds()) / sd.Seconds()
+					c14Bell += math.Exp(-z * z / 2)
+				}
+			})
+			got, verr := gaussian.CalculateVolume(s, pk, sd)
+			want := float64(n) / unit.Seconds() * c14Bell
+			if verr != nil || math.IsInf(got, 0) || math.IsNaN(got) || math.Abs(got-want) > 1+1e-9*want {
+				o.Violate("ratestr-peak-rate:"+s, "rate string %q spells %d per %v; as a gaussian peak rate it stands for a volume of %.3f (bell area %.3f x %g per second), CalculateVolume gives %v (err %v)", s, n, unit, want, c14Bell, float64(n)/unit.Seconds(), got, verr)
+				return
+			}
+			o.AddObs("peak_rate_volumes_checked", 1)
 		}
 		// the accepted meaning survives a distribution: over whole units the spread ticks deliver n per unit
 		for _, dist := range []string{"regular", "random"} {
